@@ -390,27 +390,57 @@ func c09_4(c *core.Ctx, p *core.Prog) {
 				timeoutF = f
 			}
 		}
-		// size field: the int field stored from the config field tagged send_batch_size in the constructor
+		// size field: the int field stored from the config field tagged send_batch_size in the constructor.
+		// The configured values must reach the processor as they are: a constructor that rewrites one of them
+		// (a zero "meaning default") changes what the documented special values do — send_batch_size 0 stops
+		// meaning "send at once", send_batch_max_size 0 stops meaning "no limit", timeout 0 "no timer".
 		if m.ctorFn != nil {
+			tagOf := func(v ssa.Value) string {
+				f2 := core.LoadedField(v)
+				if f2 == nil {
+					return ""
+				}
+				if sst, ok := f2.X.Type().Underlying().(*types.Pointer); ok {
+					if ss, ok := sst.Elem().Underlying().(*types.Struct); ok {
+						tag := ss.Tag(f2.Field)
+						for _, t := range []string{"send_batch_size", "send_batch_max_size", "timeout"} {
+							if strings.Contains(tag, `mapstructure:"`+t+`"`) {
+								return t
+							}
+						}
+					}
+				}
+				return ""
+			}
 			core.EachInstr(m.ctorFn, func(i ssa.Instruction) {
 				s, ok := i.(*ssa.Store)
 				if !ok {
 					return
 				}
 				fa, ok := s.Addr.(*ssa.FieldAddr)
-				if !ok {
+				if !ok || core.NamedOf(fa.X.Type()) != m.procType {
 					return
 				}
-				if f2 := core.LoadedField(core.StripConv(s.Val)); f2 != nil && func() bool {
-					if sst, ok := f2.X.Type().Underlying().(*types.Pointer); ok {
-						if ss, ok := sst.Elem().Underlying().(*types.Struct); ok {
-							return strings.Contains(ss.Tag(f2.Field), `mapstructure:"send_batch_size"`)
-						}
+				if _, isNum := core.FieldVar(fa).Type().Underlying().(*types.Basic); !isNum {
+					return
+				}
+				direct := tagOf(core.StripConv(s.Val))
+				derived := ""
+				core.BackSlice(s.Val, func(v ssa.Value) bool {
+					if t := tagOf(v); t != "" && derived == "" {
+						derived = t
 					}
-					return false
-				}() {
+					return true
+				})
+				if derived == "" {
+					return
+				}
+				if derived == "send_batch_size" {
 					sizeF = core.FieldVar(fa)
 				}
+				c.Check(direct == derived, "config|verbatim|"+derived, p.Pos(s.Pos()), core.FuncName(m.ctorFn),
+					"the processor uses the configured "+derived+" as it is",
+					"the processor does not take the configured "+derived+" as it is (the constructor rewrites it, e.g. replaces 0 by a default): the documented meaning of the special value is lost — with send_batch_size 0 requests are no longer passed on at once but wait for the substituted size or the timer, and what Validate checked is not what runs")
 			})
 		}
 	}
